@@ -14,7 +14,7 @@ use fp_harness::cli::{Run, Scratch};
 use fp_harness::par::par_map;
 use fp_harness::{Reporter, Tier, Violation};
 use fp_model::grammar;
-use fp_model::stream::Filter;
+use fp_model::stream::{self, Filter};
 use fp_model::util::{fnv, hex};
 use serde_json::json;
 use std::sync::Arc;
@@ -165,6 +165,46 @@ pub fn run(tier: Tier) -> i32 {
                 }
             }
         }
+        // 2b. empty-payload packets (offset to the next RDH = 64) of a foreign and of the same link in between: they
+        //     are stepped over by the scanner in RDH-only modes and under a filter; offsets behind them must not shift
+        for what in [0u8, 1] {
+            let g = garble(&base, 3, what);
+            let (walked, _) = stream::walk(&g);
+            for (variant, foreign) in [(0usize, true), (1, false), (2, true)] {
+                let mut out: Vec<u8> = Vec::new();
+                for (i, wk) in walked.iter().enumerate() {
+                    let end = if i + 1 < walked.len() { walked[i + 1].offset as usize } else { g.len() };
+                    out.extend_from_slice(&g[wk.offset as usize..end]);
+                    let here = match variant {
+                        0 => i == 0,
+                        1 => i == 1 || i + 2 == walked.len(),
+                        _ => i % 2 == 0,
+                    };
+                    if here {
+                        let mut r = wk.rdh.clone();
+                        if foreign {
+                            r.link_id = 27;
+                            r.fee_id = fp_model::rdh::Rdh::its_fee_id(6, 40, 1);
+                        }
+                        r.memory_size = 64;
+                        r.offset_next = 64;
+                        out.extend_from_slice(&r.encode());
+                    }
+                }
+                let bytes = Arc::new(out);
+                let modes: Vec<Mode> = if w.stave { vec![Mode::AllStave] } else { vec![Mode::Sanity, Mode::All, Mode::SanityIts, Mode::AllIts] };
+                for mode in modes {
+                    for f in filters.iter().take(4) {
+                        for pipe in [false, true] {
+                            cases.push(Case { label: format!("{} garbled kind {what} with empty packets (variant {variant})", w.name), bytes: bytes.clone(), mode, filter: *f, pipe, cli: false });
+                        }
+                    }
+                }
+                if what == 0 && !w.stave {
+                    cases.push(Case { label: format!("CLI {} with empty packets (variant {variant})", w.name), bytes: bytes.clone(), mode: Mode::AllIts, filter: filters.get(1).copied().flatten(), pipe: false, cli: true });
+                }
+            }
+        }
         // 3. truncation inside the last payload (E100 / E101 messages)
         for cutback in [1usize, 7, 20] {
             let t = Arc::new(base[..base.len() - cutback].to_vec());
@@ -199,7 +239,7 @@ pub fn run(tier: Tier) -> i32 {
     rep.cov("evaluations", json!(cases.len()));
     rep.cov("distinct_nontrivial", json!(with_msgs));
     rep.cov("exhaustive", json!(true));
-    rep.cov("rule", json!("every message of: the C02 fault x site menu (every 3rd site in quick, all in thorough) x modes; witness streams with all payload words / non-framing header bytes replaced by arbitrary bytes (6 / 24 salts) x modes x {no filter, each link, each FEE id, each layer-stave} x {file-like, pipe-like}; truncated tails; a CLI subset. non-trivial = the run produced at least one message to check"));
+    rep.cov("rule", json!("every message of: the C02 fault x site menu (every 3rd site in quick, all in thorough) x modes; witness streams with all payload words / non-framing header bytes replaced by arbitrary bytes (6 / 24 salts) x modes x {no filter, each link, each FEE id, each layer-stave} x {file-like, pipe-like}; the same with empty-payload packets (foreign / same link) inserted at 3 position patterns; truncated tails; a CLI subset. non-trivial = the run produced at least one message to check"));
     rep.sample(json!({"check": "0x<offset> in input and at an RDH/word start; [b0..b9] == input[offset..offset+10]; `current :` row == decoded RDH at offset; `previous:` rows == the same link's two preceding RDHs"}));
     rep.assume("panics / crashes are not judged here (C04); the messages printed before are");
     rep.assume("payload layout agrees with the header's data format (the property's premise); words never end in 0xFF and the second word of a format-2 payload does not start with six zero bytes");
